@@ -410,6 +410,25 @@ int main (int argc, char **argv)
 			mpq_clear (d);
 			free_basis (B);
 		}
+		else if (!strcmp (op, "WRITEBAS"))
+		{
+			/* WRITEBAS <file> : the problem's own basis */
+			int rv = mpq_QSwrite_basis (P, NULL, qsx_tok[1]);
+			printf ("WRITEBAS %d\n", rv);
+		}
+		else if (!strcmp (op, "READBAS"))
+		{
+			int rv = mpq_QSread_and_load_basis (P, qsx_tok[1]);
+			printf ("READBAS %d\n", rv);
+		}
+		else if (!strcmp (op, "PRINTSOL"))
+		{
+			/* PRINTSOL <file> : QSexact_print_sol of the current (exactly solved) problem */
+			EGioFile_t *f = EGioOpen (qsx_tok[1], "w");
+			int rv = f ? QSexact_print_sol (P, f) : -1;
+			if (f) EGioClose (f);
+			printf ("PRINTSOL %d\n", rv);
+		}
 		else if (!strcmp (op, "VERIFY"))
 		{
 			/* VERIFY <useprestep 0|1> [cstat rstat] : QSexact_verify with the given basis (or the problem's own) */
